@@ -4,6 +4,10 @@
 // comments only.
 package recovery
 
+import "bytes"
+
+var _ = bytes.Compare
+
 func forall(lo, hi int, f func(int) bool) bool {
 	for i := lo; i < hi; i++ {
 		if !f(i) {
@@ -89,3 +93,26 @@ func forall(lo, hi int, f func(int) bool) bool {
 //@   property C06 C08
 //@   requires cp.Levels != nil
 //@   ensures result.ID == cp.ID && result.LastSeqNum == cp.LastSeqNum && len(result.WALs) == len(cp.WALs)
+//@   loop 0:
+//@     invariant len(doc.WALs) == len(cp.WALs) && doc.ID == cp.ID && doc.LastSeqNum == cp.LastSeqNum
+
+// ... and its levels below 0 must be ordered by key whatever order the source
+// checkpoints are given in (they arrive in acknowledgement order).
+//@ define docsSorted(ts) := forall(0, len(ts), func(ii_ int) bool { return forall(0, ii_, func(jj_ int) bool { return bytes.Compare(ts[jj_].StartKey, ts[ii_].StartKey) <= 0 }) })
+
+//@ func ext:slices.CompactFunc
+//@   trusted
+//@   ensures len(result) <= len(arg0)
+//@   ensures forall(0, len(result), func(i int) bool { return forall(0, i, func(k int) bool {
+//@           return exists(0, len(arg0), func(b int) bool { return exists(0, b, func(a int) bool { return same(result[k], arg0[a]) && same(result[i], arg0[b]) }) }) }) })
+
+//@ func sortedUniqueTables
+//@   property C06
+//@   ensures docsSorted(result)
+
+//@ func LoadCheckpointList
+//@   property C06
+//@   nosafety
+//@   atcall newCheckpointFromDocument: forall(1, len(arg2.Levels), func(l int) bool { return docsSorted(arg2.Levels[l]) })
+//@   loop 3:
+//@     invariant 1 <= levelIndex && forall(1, levelIndex, func(l int) bool { return l < len(compositeCheckpointDoc.Levels) ==> docsSorted(compositeCheckpointDoc.Levels[l]) })
